@@ -573,7 +573,33 @@ func Run(root string, p *Project, probes *hermes.VerifProbes) *RunResult {
 	runMu.Lock()
 	defer runMu.Unlock()
 	vh.Crumb("whole-run", map[string]interface{}{"root": root, "project": p})
-	hermes.VerifProbe = probes
+	// the run raises the transport-instability flag (nitro.go: "C1 unstable", sticky for the rest of the run) when
+	// the explicit convection-dispersion step overshoots: from then on its state is the output of an unstable
+	// scheme. Violations reported for such a run are tagged (vh.RunContext) so that this one documented cause is
+	// told apart from every other one.
+	vh.RunContext = ""
+	wrapped := &hermes.VerifProbes{}
+	if probes != nil {
+		*wrapped = *probes
+	}
+	userNitro, userEnd := wrapped.AfterNitro, wrapped.DayEnd
+	wrapped.AfterNitro = func(g *hermes.GlobalVarsMain, w *hermes.WaterSharedVars, n *hermes.NitroSharedVars, zeit, subd int, wdt, steps float64) {
+		if g.C1NotStableErr != "" {
+			vh.RunContext = "unstable-transport"
+		}
+		if userNitro != nil {
+			userNitro(g, w, n, zeit, subd, wdt, steps)
+		}
+	}
+	wrapped.DayEnd = func(g *hermes.GlobalVarsMain, w *hermes.WaterSharedVars, n *hermes.NitroSharedVars, c *hermes.CropSharedVars, zeit int) {
+		if g.C1NotStableErr != "" {
+			vh.RunContext = "unstable-transport"
+		}
+		if userEnd != nil {
+			userEnd(g, w, n, c, zeit)
+		}
+	}
+	hermes.VerifProbe = wrapped
 	defer func() { hermes.VerifProbe = nil }()
 	session := hermes.NewHermesSession()
 	defer session.Close()
